@@ -80,7 +80,15 @@ class S3View:
 # Parsing
 # ---------------------------------------------------------------------------
 def norm(p: str) -> str:
-    return p.lstrip("/")
+    """Table-relative canonical spelling of a stored path: leading slashes, '.' segments and doubled slashes carry no
+    meaning ('./data/x', 'data//x' and '/data/x' name the file 'data/x')."""
+    p = p.lstrip("/")
+    if "//" in p or p.startswith("./") or "/./" in p:
+        import posixpath
+
+        p = posixpath.normpath(p)
+        p = "" if p == "." else p
+    return p
 
 
 def pointer_target(view: Any) -> Optional[str]:
